@@ -26,6 +26,8 @@ import Pandora.Proofs.C15Lock
 import Pandora.Bridge.C15Scen
 import Pandora.Proofs.C15Flow
 import Pandora.Bridge.C15Flow
+import Pandora.Proofs.C15Walk
+import Pandora.Bridge.C15Walk
 
 namespace Pandora.Props.C15
 open Pandora.Model.C15 Pandora.Spec.C15 Pandora.Proofs.C15
@@ -587,6 +589,90 @@ theorem C15_substr_source (start stop l : Int) (hl : 0 ≤ l) :
   rw [Bridge.C15Flow.substrBounds_eq]
   exact ⟨rfl, substrBounds_range start stop l hl⟩
 
+/-! ## round 3: the path walk of `GetMapValue`, `calcIndex`'s dispatch, template functions, the provider's feed -/
+
+/-- **the segment loop of `mp.GetMapValue` as regenerated from the source** (trim, key builder `'.' + segment`, the
+bracket test, index text = lower-cased trimmed text between the first `[` and the final `]`, field name = text before
+the first `[`, lookup, `extractFromSlice` keyed by the WHOLE path so far, descent / last-segment rule), run statement by
+statement with Go's variables explicit, computes exactly the model's `walk` — for every path, variable tree and
+iterator state; the path is split at `.` after one leading `.` was dropped. -/
+theorem C15_walk_code_source (id : Nat) (segs : List String) (cur : List (String × Val)) (key : String) (it : Iter) :
+    walkBy Gen.C15Walk.walkCode id segs cur key it = some (walk id segs cur key it) ∧
+    Gen.C15Walk.walkSplit = (".", ".") :=
+  ⟨Bridge.C15Walk.walk_gen id segs cur key it, Bridge.C15Walk.walkSplit_eq⟩
+
+/-- the two slice expressions of the indexed branch (`segment[open+1 : len-1]`, `segment[:open]`) are in range whenever
+the branch is taken (the segment contains `[` and ends in `]`): the path walk cannot panic with "slice bounds out of range" -/
+theorem C15_walk_slices_in_range (seg : List Char) (h : (seg.contains '[' && seg.getLast? == some ']') = true) :
+    (goSlice seg (indexOfC '[' seg + 1) ((seg.length : Int) - 1)).isSome = true ∧
+    (goSlice seg 0 (indexOfC '[' seg)).isSome = true := walk_slices_ok seg h
+
+/-- **`calcIndex` as regenerated**: the guards and keyword branches in source order (Atoi; refuse a non-number that is
+no keyword; refuse an empty list; numeric branch; `last`; `rand`; `next`) compute exactly the model's `calcIndex` — in
+particular the empty-list guard precedes every branch that would compute `length − 1` or a remainder. -/
+theorem C15_calc_code_source (indexStr seg : String) (len id : Nat) (it : Iter) :
+    runCOps indexStr seg len id Gen.C15Walk.calcCode none it = some (outInt (calcIndex indexStr seg len id it)) :=
+  Bridge.C15Walk.calcIndex_gen indexStr seg len id it
+
+/-- every list type `extractFromSlice` accepts has its case in the type switch (each returning row `index`) -/
+theorem C15_extract_total_source : Gen.C15Walk.extractCases = Gen.C15Walk.extractValid := Bridge.C15Walk.extract_total
+
+/-- **one entry of a preprocessor mapping, as regenerated** (`Preprocessor.Process`, `templater.ParseFunc` / `parseStr` /
+`GetFuncs`, `ExecTemplateFuncWithVariables`): a value whose text before the first `(` is exactly one of the regenerated
+function names is a call of that function with its (trimmed) arguments looked up in the variable tree — a found value is
+passed, anything else stays the literal text; every other value is a path resolved by `GetMapValue` -/
+theorem C15_pre_entry_source (fn : String → List Val → Option String) (vars : List (String × Val)) (v : String) (id : Nat) (it : Iter) :
+    resolveEntryBy Gen.C15Walk.entryCode fn vars v id it = resolveEntry fn vars v id it ∧
+    (∀ t, parseStrBy Gen.C15Walk.strFnFacts t = parseStrF t) ∧
+    Gen.C15Walk.funcNames = funcNames ∧ Gen.C15Walk.parseFuncExact = true ∧
+    (funcNames.contains (String.ofList (parseStrF v.toList).1) = false →
+      resolveEntry fn vars v id it = getMapValue vars v id it) ∧
+    (funcNames.contains (String.ofList (parseStrF v.toList).1) = true →
+      resolveEntry fn vars v id it =
+        match fn (String.ofList (parseStrF v.toList).1)
+            (resolveArgs vars id ((parseStrF v.toList).2.map String.ofList) it).1 with
+        | some s => .ok (.str s, (resolveArgs vars id ((parseStrF v.toList).2.map String.ofList) it).2)
+        | none => .err "template-func") :=
+  ⟨Bridge.C15Walk.resolveEntry_gen fn vars v id it, Bridge.C15Walk.parseStr_gen, Bridge.C15Walk.funcNames_eq,
+   Bridge.C15Walk.parseFuncExact_eq, resolveEntry_path fn vars v id it, resolveEntry_func fn vars v id it⟩
+
+/-- **the provider's feed with `passes` / `limit`** (`scenario.Provider.Run`; 0 = unlimited): a consumer taking at most
+`n` ammo receives exactly the deliveries 0 … m−1 of the endless feed (`ring[k mod |ring|]`), where
+`m = min n (passes·|ring|) limit` (a zero option dropped) — whole passes, never more than `limit`; hence the deliveries
+satisfy the weight judge `ringOK` like every prefix of the endless feed. -/
+theorem C15_feed {ρ} (reqs : List Char → Option ρ) (scs : List ScenarioCfg) (ring : List (Scenario ρ))
+    (hnd : (scs.map (·.name)).Nodup) (hw : ∀ sc ∈ scs, 0 ≤ sc.weight)
+    (h : decodeAmmo reqs scs = .ok ring) (hne : ring.length ≠ 0) (passes limit n : Nat) :
+    feed ring passes limit n = (List.range (feedCount ring.length passes limit n)).filterMap (deliver ring) ∧
+    (feed ring passes limit n).length = feedCount ring.length passes limit n ∧
+    feedCount ring.length passes limit n ≤ n ∧
+    (passes ≠ 0 → feedCount ring.length passes limit n ≤ passes * ring.length) ∧
+    (limit ≠ 0 → feedCount ring.length passes limit n ≤ limit) ∧
+    ringOK (scs.map (·.name)) (scs.map (·.weight)) ((feed ring passes limit n).map (·.name)) = true := by
+  have hlen := feed_length ring hne passes limit n
+  obtain ⟨m, _, he, _, _⟩ := feed_spec ring hne passes limit n
+  have hm : m = feedCount ring.length passes limit n := by
+    rw [← hlen, he]; exact (length_deliveries ring hne m).symm
+  refine ⟨by rw [← hm]; exact he, hlen, ?_, ?_, ?_, ?_⟩
+  · unfold feedCount; by_cases hp : passes = 0 <;> by_cases hl : limit = 0 <;> simp [hp, hl] <;> omega
+  · intro hp; unfold feedCount; by_cases hl : limit = 0 <;> simp [hp, hl] <;> omega
+  · intro hl; unfold feedCount; simp [hl]; omega
+  · rw [he]; exact C15_ring_spec reqs scs ring hnd hw h m
+
+/-- **the loop of `Provider.Run` as regenerated**: one iteration of the model's feed is the regenerated index / pass
+arithmetic and stop conditions, and the statements stand in an order in which the index and the pass number are computed
+from the counter before it is incremented, both stop conditions are tested before the increment, and the ammo is picked
+before it is sent -/
+theorem C15_feed_source {α} (ring : List α) (p l fuel k : Nat) :
+    feedLoop ring p l (fuel + 1) k =
+      (if Gen.C15Walk.feedPassStop p (Gen.C15Walk.feedPassNum k ring.length) then []
+       else if Gen.C15Walk.feedLimitStop l k then []
+       else match ring[(Gen.C15Walk.feedIndex k ring.length).toNat]? with
+         | some a => a :: feedLoop ring p l fuel (k + 1)
+         | none => []) ∧
+    Gen.C15Walk.feedFacts.all (·.2) = true :=
+  ⟨Bridge.C15Walk.feedLoop_gen ring p l fuel k, Bridge.C15Walk.feedFacts_ok⟩
+
 /-! ## non-vacuity: concrete inputs meeting the hypotheses of every theorem -/
 
 section Examples
@@ -795,6 +881,94 @@ example : Gen.C15Scen.nextIndex 7 3 = 1 ∧ Gen.C15Scen.GCD 6 4 = some 2 ∧ Gen
 example : (calcIndex "next" ".source.users" 3 0 { Iter.empty with gs := [((0, ".source.users"), 6)] }).bind
     (fun r => .ok r.1) = .ok 1 := by decide
 example : (calcIndex "last" ".source.users" 0 0 Iter.empty).bind (fun r => .ok r.1) = .err "empty" := by decide
+
+
+/-! ### round 3: path walk, `calcIndex` dispatch, template functions, feed -/
+
+/-- two data sources whose lists have the same field name -/
+def exVars : List (String × Val) :=
+  [("source", .map [("buyers", .map [("rows", .list [.str "b0", .str "b1", .str "b2"])]),
+                    ("sellers", .map [("rows", .list [.str "s0", .str "s1", .str "s2"])])])]
+
+/-- the first values of two lookups in a row -/
+def twoLookups (code : WalkCode) (p1 p2 : List String) : Option (Val × Val) :=
+  match walkBy code 0 p1 exVars "" Iter.empty with
+  | some (.ok (v1, it)) =>
+    match walkBy code 0 p2 exVars "" it with
+    | some (.ok (v2, _)) => some (v1, v2)
+    | _ => none
+  | _ => none
+
+def strOf : Option (Val × Val) → Option (String × String)
+  | some (.str a, .str b) => some (a, b)
+  | _ => none
+
+/-- the loop body with the counter keyed by the bare field name (seeded change C15-r3-2) -/
+def bareKeyCode : WalkCode := { walkCode with indexed := [.openIdx '[', .indexStr true true 1 1, .cutName, .lookup, .extract .segment, .descend] }
+
+def valStr : Val → String
+  | .str s => s
+  | _ => "?"
+
+-- the regenerated code gives each list its own counter, the bare-key code makes them share one
+unseal lowerS in
+example : strOf (twoLookups Gen.C15Walk.walkCode ["source", "buyers", "rows[next]"] ["source", "sellers", "rows[next]"]) = some ("b0", "s0") ∧
+    strOf (twoLookups bareKeyCode ["source", "buyers", "rows[next]"] ["source", "sellers", "rows[next]"]) = some ("b0", "s1") := by decide
+
+/-- the loop body without `strings.ToLower` -/
+def noLowerCode : WalkCode := { walkCode with indexed := [.openIdx '[', .indexStr false true 1 1, .cutName, .lookup, .extract .builder, .descend] }
+
+unseal lowerS in
+example : (walkBy Gen.C15Walk.walkCode 0 ["source", " buyers ", "rows[ LAST ]"] exVars "" Iter.empty).map (fun o => o.bind fun r => .ok (valStr r.1)) = some (.ok "b2") ∧
+    (walkBy noLowerCode 0 ["source", " buyers ", "rows[ LAST ]"] exVars "" Iter.empty).map (fun o => o.bind fun r => .ok (valStr r.1)) = some (.err "bad-index") := by decide
+
+/-- `calcIndex` with the `[last]` branch moved in front of the empty-list guard -/
+def lastFirstCode : List COp :=
+  [.atoi, .refuseBad ["next", "rand", "last"], .last "last", .refuseEmpty, .numeric ["next", "rand", "last"], .rand "rand", .next]
+
+-- on an empty list the regenerated code refuses, the reordered code returns −1 (the caller then indexes out of range)
+example : (runCOps "last" ".source.users" 0 0 Gen.C15Walk.calcCode none Iter.empty).map (fun o => o.bind fun r => .ok r.1) = some (.err "empty") ∧
+    (runCOps "last" ".source.users" 0 0 lastFirstCode none Iter.empty).map (fun o => o.bind fun r => .ok r.1) = some (.ok (-1)) ∧
+    (runCOps "-4" ".source.users" 3 0 Gen.C15Walk.calcCode none Iter.empty).map (fun o => o.bind fun r => .ok r.1) = some (.ok 2) ∧
+    (runCOps "first" ".source.users" 3 0 Gen.C15Walk.calcCode none Iter.empty).map (fun o => o.bind fun r => .ok r.1) = some (.err "bad-index") := by decide
+
+-- `parseStr`: the name is not trimmed, the arguments are; a missing `)` is tolerated; only one `)` is removed
+example : parseStrF "randString( 3 ,z )".toList = ("randString".toList, ["3".toList, "z".toList]) ∧
+    parseStrF "randString(2,z".toList = ("randString".toList, ["2".toList, "z".toList]) ∧
+    parseStrF "uuid()".toList = ("uuid".toList, []) ∧
+    parseStrF " randString(2)".toList = (" randString".toList, ["2".toList]) ∧
+    parseStrF "source.users[next].id".toList = ("source.users[next].id".toList, []) := by decide
+
+/-- a function library for the examples: `randString(n, c)` over one letter -/
+def exFn : String → List Val → Option String := fun name args =>
+  match name, args with
+  | "randString", [.str n, .str c] => (atoi n.toList).map fun k => String.ofList (List.replicate k.toNat (c.toList.headD (Char.ofNat 120)))
+  | _, _ => none
+
+def exTree : List (String × Val) :=
+  [("source", .map [("users", .list [.map [("id", .str "u0")], .map [("id", .str "u1")]])]),
+   ("request", .map [("a", .map [("postprocessor", .map [("h", .str "3")])])])]
+
+def entryStr (o : Outcome (Val × Iter)) : Outcome String := o.bind fun r => .ok (match r.1 with | .str s => s | _ => "?")
+
+-- a function whose count is a captured value, a literal count, an unknown name (looked up as a path), a plain path
+unseal lowerS in
+example : entryStr (resolveEntryBy Gen.C15Walk.entryCode exFn exTree "randString(request.a.postprocessor.h, z)" 0 Iter.empty) = .ok "zzz" ∧
+    entryStr (resolveEntry exFn exTree "randString(2, q)" 0 Iter.empty) = .ok "qq" ∧
+    entryStr (resolveEntry exFn exTree "nosuch(1)" 0 Iter.empty) = .err "segment-not-found" ∧
+    entryStr (resolveEntry exFn exTree "source.users[next].id" 0 Iter.empty) = .ok "u0" := by decide
+
+-- with `nil` instead of the literal text for an argument that is no variable (mutant) the same call fails
+unseal lowerS in
+example : entryStr (resolveEntryBy { entryCode with argErr := .nilValue } exFn exTree "randString(2, q)" 0 Iter.empty) = .err "template-func" := by decide
+
+-- the feed: three ammo per pass; two passes; a limit of four; both; unlimited
+example : feed ["a", "b", "c"] 2 0 10 = ["a", "b", "c", "a", "b", "c"] ∧ feed ["a", "b", "c"] 0 4 10 = ["a", "b", "c", "a"] ∧
+    feed ["a", "b", "c"] 2 4 10 = ["a", "b", "c", "a"] ∧ feed ["a", "b", "c"] 0 0 5 = ["a", "b", "c", "a", "b"] ∧
+    feedCount 3 2 0 10 = 6 ∧ feedCount 3 0 4 10 = 4 ∧ feedCount 3 2 4 10 = 4 ∧ feedCount 3 0 0 5 = 5 ∧
+    ringPeriod [6, 4, 2] = 6 ∧ ringPeriod [0] = 1 := by decide
+
+example : decodeAmmo exReqs exScs ≠ .err "x" ∧ (3 : Nat) ≠ 0 := by decide
 
 end Examples
 
